@@ -63,6 +63,64 @@ fn sign_events<V: Fv>(proc_id: u64, seed: u64, nthreads: usize, per: usize, nkey
     all
 }
 
+fn sign_event_json<V: Fv>(proc_id: u64, thr: usize, seq: usize, kid: u64, mid: u64, sk: &V::Sk, pk: &V::Pk) -> Value {
+    let msg = format!("message-{}", mid).into_bytes();
+    let sig = V::sign(&msg, sk);
+    let b = V::sig_to_bytes(&sig);
+    json!({"ev":"sign","proc":proc_id,"thr":thr,"seq":seq,"n":V::N,"key":kid,"msg":mid,
+           "hdr":b[0],"salt":bytes_json(&b[1..41]),"siglen":b.len(),"verified":V::verify(&msg, &sig, pk),
+           "body_sha3":sha3_hex(&b[41..])})
+}
+
+/// Further histories: (a) ONE thread signing very many times (a salt pool with a period of a few hundred or thousand draws),
+/// (b) threads that alternate the two variants call by call (generator state keyed or re-initialised by variant), with keys from
+/// `generate()`, (c) bursts: all threads released by a barrier sign at the same instant (a racy process-wide generator).
+fn more_sign_histories(proc_id: u64, long512: usize, long1024: usize, bursts: usize) -> Vec<Value> {
+    let mut hs: Vec<std::thread::JoinHandle<Vec<Value>>> = vec![];
+    hs.push(std::thread::spawn(move || {
+        let (sk, pk) = V512::generate();
+        (0..long512).map(|i| sign_event_json::<V512>(proc_id, 200, i, 200, (i % 3) as u64, &sk, &pk)).collect()
+    }));
+    hs.push(std::thread::spawn(move || {
+        let (sk, pk) = V1024::generate();
+        (0..long1024).map(|i| sign_event_json::<V1024>(proc_id, 201, i, 201, (i % 3) as u64, &sk, &pk)).collect()
+    }));
+    for t in 0..3usize {
+        hs.push(std::thread::spawn(move || {
+            let (ska, pka) = V512::generate();
+            let (skb, pkb) = V1024::generate();
+            let mut evs = vec![];
+            for i in 0..120usize {
+                if (i + t) % 2 == 0 {
+                    evs.push(sign_event_json::<V512>(proc_id, 210 + t, i, 210 + t as u64, (i % 2) as u64, &ska, &pka));
+                } else {
+                    evs.push(sign_event_json::<V1024>(proc_id, 210 + t, i, 210 + t as u64, (i % 2) as u64, &skb, &pkb));
+                }
+            }
+            evs
+        }));
+    }
+    let nb = 12usize;
+    let barrier = Arc::new(std::sync::Barrier::new(nb));
+    for t in 0..nb {
+        let barrier = barrier.clone();
+        hs.push(std::thread::spawn(move || {
+            let (sk, pk) = V512::keygen([t as u8 + 100; 32]);
+            let mut evs = vec![];
+            for i in 0..bursts {
+                barrier.wait();
+                evs.push(sign_event_json::<V512>(proc_id, 220 + t, i, 220 + t as u64, 0, &sk, &pk));
+            }
+            evs
+        }));
+    }
+    let mut all = vec![];
+    for h in hs {
+        all.extend(h.join().unwrap());
+    }
+    all
+}
+
 static T0: std::sync::OnceLock<std::time::Instant> = std::sync::OnceLock::new();
 fn keygen_event<V: Fv>(proc_id: u64, thr: usize, seq: usize, seed: [u8; 32], tag: &str) -> Value {
     let (sk, pk) = V::keygen(seed);
@@ -95,6 +153,14 @@ fn keygen_events<V: Fv>(proc_id: u64, seed: u64, bases: usize, flips: usize, con
         }
     }
     eprintln!("[c15] n={} bases done {:?}", V::N, T0.get_or_init(std::time::Instant::now).elapsed());
+    // the same seeds through the other public constructor: SecretKey::generate_from_seed + PublicKey::from_secret_key
+    for base in base_seeds.iter().take(2) {
+        let sk = V::generate_from_seed(*base);
+        let pk = V::pk_from_sk(&sk);
+        evs.push(json!({"ev":"keygen","proc":proc_id,"thr":0,"seq":evs.len(),"n":V::N,"seed":bytes_json(base),
+               "sk_sha3":sha3_hex(&V::sk_to_bytes(&sk)),"pk_sha3":sha3_hex(&V::pk_to_bytes(&pk)),
+               "sklen":V::sk_to_bytes(&sk).len(),"pklen":V::pk_to_bytes(&pk).len(),"tag":"via-generate-from-seed"}));
+    }
     // A-B-A on one thread, and the other variant in between (a cache keyed too coarsely would answer A's key for B or B's for A)
     if base_seeds.len() >= 2 {
         evs.push(keygen_event::<V>(proc_id, 0, evs.len(), base_seeds[0], "aba"));
@@ -236,6 +302,10 @@ pub fn c08(args: &Args) {
         let p = args.num("--proc", 1);
         let mut evs = sign_events::<V512>(p, seed, 16, per, 2);
         evs.extend(sign_events::<V1024>(p, seed, 16, per / 4 + 1, 2));
+        if p == 1 {
+            let (l5, l10, b) = if thorough { (60000, 20000, 1000) } else { (12000, 5000, 150) };
+            evs.extend(more_sign_histories(p, l5, l10, b));
+        }
         write_events(&PathBuf::from(out), &evs);
         return;
     }
